@@ -85,4 +85,20 @@ PROPS = {
         "pow.mined v2 (nonces returned by Mine with 1..16 workers re-scored by the Lean pipeline), pow2.nopassover (single worker: every earlier nonce re-scored)",
    assumptions=["iota.go curl/bct computes the lanes' Curl-P-81 hashes (external)", "len(data)+8 times target fits 64 bits (the property's quantifier)"],
    trusted_base=["Lean BLAKE2b-256 / b1t6 / Curl-P-81 pipeline in the driver", "math/big modelled on Nat"]),
+ "C02": P("C02", tie="Iota.Tie.Slip10",
+   rule="ops: slip10.derive (private key, chain code, serialized public key, fingerprint; the harness also derives step by step and requires the same key), slip10.pubderive, hash.hmac512, hash.hash160. Seeds of length 0..64 x "
+        "{secp256k1, P-256, ed25519} x random paths (length 0..6, mixed hardened); undefined derivations (non-hardened on ed25519 private and public keys, hardened child of a public key); pluggable curves whose validity predicate "
+        "rejects ~50% and ~99% of the candidates (both retry loops run hundreds of times) and one returning a permanent error (per-op timeout turns a hang into an outcome)",
+   assumptions=["HMAC-SHA512, SHA-256, RIPEMD-160 and the curve operations are parameters of the theorems"],
+   trusted_base=["Lean HMAC-SHA512/SHA-256/RIPEMD-160, the secp256k1 model (C17), P-256 and Ed25519 oracles in the driver, validated by agreement with the Go packages"]),
+ "C08": P("C08", tie="Iota.Tie.Slip10",
+   rule="ops: slip10.shift on secp256k1 and P-256: random scalars 0<k<n (also 1 and n-1) x shifts {0, k, n-k, n-k+1, n-1, n, n+1, 2^256-1, 1, random}, private side vs public side with panics recovered; "
+        "slip10.pubderive: child of the private key made public vs child of the public key (key bytes, chain code, fingerprint) for random parents and non-hardened indices",
+   assumptions=["the curve operations form a cyclic group of order n generated by the base point (hypothesis LawfulW; for secp256k1 the group law of the code is C17, the group order is assumed)"],
+   trusted_base=["crypto/elliptic P-256 (external)"]),
+ "C17": P("C17",
+   rule="ops: secp.add, secp.double, secp.mul, secp.basemul, secp.oncurve on btccurve.Secp256k1(): random pairs, P=Q, P=-Q, identity on either side and both, scalars 0, 1, 2, n-1, n, n+1, 2n, 2^256-1, n/2, with leading zero bytes, "
+        "lengths 0..40, multiples of the identity; IsOnCurve on curve points, near misses and (0,0)",
+   assumptions=["P = 2^256 - 2^32 - 977 is prime (hypothesis Fact (Nat.Prime P) of every theorem)"],
+   trusted_base=["Mathlib's elliptic-curve group law (WeierstrassCurve.Affine.Point)", "math/big modelled on Int"]),
 }
